@@ -141,6 +141,39 @@ Theorem C34_ray_plane : forall cx cy cz m00 m01 m02 m10 m11 m12 m20 m21 m22 s0_ 
 Proof. exact ray_plane_spec. Qed.
 Print Assumptions C34_ray_plane.
 
+(* ray_ellipsoid, PARTIAL: stated in the geom's local frame (lp, lv) = _ray_map pos mat pnt vec, i.e.
+   lp + t lv = mat^T (pnt + t vec - pos), which is the world-frame statement when mat is a rotation; the
+   returned normal is not characterised.  For non-zero semi-axes the returned x >= 0 lies on the
+   ellipsoid and is the smallest such non-negative parameter; -1 is returned for a surface point only if
+   the quadratic's discriminant is below 1e-15 (tangent ray). *)
+Theorem C34_ray_ellipsoid_partial :
+  forall cx cy cz m00 m01 m02 m10 m11 m12 m20 m21 m22 sx sy sz px py pz vx vy vz : R,
+  sx <> 0 -> sy <> 0 -> sz <> 0 ->
+  let c := v3 cx cy cz in let p := v3 px py pz in let v := v3 vx vy vz in
+  let M := m9 m00 m01 m02 m10 m11 m12 m20 m21 m22 in
+  let lp := fst (_ray_map c M p v) in let lv := snd (_ray_map c M p v) in
+  let x := fst (ray_ellipsoid c M (v3 sx sy sz) p v) in
+  (x = -1 /\ forall t, 0 <= t -> ell sx sy sz (ray_at lp lv t) = 1 ->
+                       exists a b cc, a * t * t + 2 * b * t + cc = 0 /\ b * b - a * cc < EPS)
+  \/ (0 <= x /\ ell sx sy sz (ray_at lp lv x) = 1 /\
+      forall t, 0 <= t -> ell sx sy sz (ray_at lp lv t) = 1 -> x <= t).
+Proof. exact ray_ellipsoid_partial. Qed.
+Print Assumptions C34_ray_ellipsoid_partial.
+
+(* ray_geom is a pure dispatch on the geom type (ray_capsule, ray_cylinder, ray_box are covered by
+   T-validation and the mj_ray oracle only: no closed-form theorem) *)
+Theorem C34_ray_geom_dispatch : forall pos mat size pnt vec : list R,
+  ray_geom pos mat size pnt vec 0 = ray_plane pos mat size pnt vec /\
+  ray_geom pos mat size pnt vec 2 = ray_sphere pos (nth 0 size 0 * nth 0 size 0) pnt vec /\
+  ray_geom pos mat size pnt vec 3 = ray_capsule pos mat size pnt vec /\
+  ray_geom pos mat size pnt vec 4 = ray_ellipsoid pos mat size pnt vec /\
+  ray_geom pos mat size pnt vec 5 = ray_cylinder pos mat size pnt vec /\
+  ray_geom pos mat size pnt vec 6 = (fst (fst (ray_box pos mat size pnt vec)), snd (ray_box pos mat size pnt vec)) /\
+  (forall t : Z, t <> 0%Z -> t <> 2%Z -> t <> 3%Z -> t <> 4%Z -> t <> 5%Z -> t <> 6%Z ->
+     ray_geom pos mat size pnt vec t = (-1, [0; 0; 0])).
+Proof. exact ray_geom_dispatch. Qed.
+Print Assumptions C34_ray_geom_dispatch.
+
 (* bvh_equals_brute_partial.  Abstract BVH (binary tree, one geom per leaf, a box per node; `entry`
    = distance at which the ray enters a box, None = missed).  If the traversal skips a subtree only
    when its box is missed or entered no nearer than the current best (prune_sound), and every box is
